@@ -157,9 +157,9 @@ def evaluate(m, budget, jobs):
 def run(jobs, budget, only):
     ms = load("mutants.jsonl")
     done = {r["id"] for r in load("results.jsonl")}
-    todo = [m for m in ms if m["id"] not in done and (not only or m["id"] in only)]
+    todo = [m for m in ms if (m["id"] in only) or (not only and m["id"] not in done)]
     print("to evaluate:", len(todo))
-    out = open(os.path.join(OUT, "results.jsonl"), "a")
+    out = open(os.path.join(OUT, "rerun.jsonl" if only else "results.jsonl"), "a")
     par = max(1, (os.cpu_count() or 8) // jobs)
     with ThreadPoolExecutor(par) as ex:
         for r in ex.map(lambda m: evaluate(m, budget, jobs), todo):
